@@ -5979,10 +5979,12 @@ class Query(object):
             next_objects_to_process = set()
             for attr, objects in collection_prefetch_dict.items():
                 items = attr.prefetch_load_all(objects)
+                new_items = {item for item in items if item not in all_objects}
+                all_objects.update(new_items)
                 if attr.reverse.is_collection:
-                    objects_to_prefetch.update(items)
+                    objects_to_prefetch.update(new_items)
                 else:
-                    next_objects_to_process.update(item for item in items if item not in all_objects)
+                    next_objects_to_process.update(new_items)
             collection_prefetch_dict.clear()
 
             for obj in objects_to_prefetch:
